@@ -437,7 +437,7 @@ func (x *Exec) zeroOfSort(s Sort) *Term {
 	case KInt:
 		return IntConstI(0)
 	case KUnint:
-		if s.Name == "Str" {
+		if s.Name == "GoStr" {
 			return x.strConst("")
 		}
 	}
@@ -543,9 +543,24 @@ func (x *Exec) heapArr(st *State, name string, idx, elt Sort) *Term {
 	if t, ok := st.heap[name]; ok {
 		return t
 	}
-	t := x.D.Const(smtName(name+"@0"), ArraySort(idx, elt))
+	// arrays first touched after a whole-heap havoc belong to that havoc generation, not to the entry heap
+	gen := "0"
+	if g, ok := st.ghost["$gen"].(string); ok {
+		gen = g
+	}
+	for k, v := range st.ghost {
+		if strings.HasPrefix(k, "$havoc:") {
+			pfx := k[7:]
+			if name == pfx || strings.HasPrefix(name, pfx+".") {
+				if g, ok := v.(string); ok {
+					gen = g
+				}
+			}
+		}
+	}
+	t := x.D.Const(smtName(name+"@"+gen), ArraySort(idx, elt))
 	st.heap[name] = t
-	if x.heap0 != nil {
+	if gen == "0" && x.heap0 != nil {
 		if _, ok := x.heap0[name]; !ok {
 			x.heap0[name] = t
 		}
@@ -569,6 +584,9 @@ func (x *Exec) heapHavocAll(st *State) {
 		x.heapHavoc(st, n)
 	}
 	st.ghost["$havocAll"] = TTrue
+	x.fresh++
+	st.ghost["$gen"] = fmt.Sprintf("g%d", x.fresh)
+	x.bumpEpoch(st)
 }
 
 func structKey(t types.Type) string { return typeKey(t) }
